@@ -6,6 +6,7 @@
 mod attrs;
 mod canon;
 mod conc;
+mod conv;
 mod dec;
 mod det;
 mod eqv;
@@ -38,6 +39,7 @@ fn main() {
         "feat" => feat::main(arg(&args, 2, 0), arg(&args, 3, 100), arg(&args, 4, 30)),
         "conc" => conc::main(arg(&args, 2, 0), arg(&args, 3, 100), arg(&args, 4, 30)),
         "dec" => dec::main(arg(&args, 2, 0), arg(&args, 3, 100), arg(&args, 4, 100), arg(&args, 5, 100)),
+        "conv" => conv::main(arg(&args, 2, 0), arg(&args, 3, 100), arg(&args, 4, 40)),
         "gperf" => gperf::main(arg(&args, 2, 0), arg(&args, 3, 100), arg(&args, 4, 40)),
         "grad" => grad::main(arg(&args, 2, 0), arg(&args, 3, 100), arg(&args, 4, 40)),
         _ => {
